@@ -54,13 +54,14 @@ nocache = find_paths('nocache/*.c', cache=False)
 assets = directory('assets', include='*.png')
 inc = header_directory('include', include='**/*.h')
 vend = header_directory('vendor', include='*.h', dist=False)
+sdk = header_directory({sdk!r})
 def no_wip(path):
     return (FindResult.exclude if 'wip' in path.basename()
             else FindResult.include)
 tools = find_files('tools/*.c'{custom})
 gen = find_files('generated/*.c')
 prog = executable('prog', ['main.c'] + srcs + plat + tools + gen,
-                  includes=[inc, vend])
+                  includes=[inc, vend, sdk])
 install(vend)
 build_step('manifest.txt', cmd=['rec', 'MANIFEST', '--vf-out=manifest.txt'] +
            [i for i in data], files=data)
@@ -92,6 +93,9 @@ TC_STATES = [
     "",
     "link_options('-s')\ncompile_options(environ.get('CFLAGS', '') + "
     "' -DTC', 'c')\n",
+    # another target architecture (the compiler is told with -m32)
+    "target_platform('linux', 'i686')\ncompile_options('-O1', 'c')\n",
+    "target_platform('linux', 'x86_64')\n",
 ]
 
 DIRS = ['src', 'src/core', 'src/util', 'plat', 'data', 'assets', 'include',
@@ -138,8 +142,12 @@ class RegenMachine(RuleBasedStateMachine):
         self.pending = []           # kinds of edits since the last build
         self.nontrivial = False
         self.builds = 0
+        # a header directory outside the project that the configure-time
+        # environment (only) makes one of the compiler's own
+        self.sdk = os.path.join(self.tmp, 'sdk', 'include')
         self.env = sandbox.base_env(os.path.join(self.tmp, 'home'), stub=True,
-                                    extra={'CC': 'cc'})
+                                    extra={'CC': 'cc',
+                                           'C_INCLUDE_PATH': self.sdk})
         self.clock = None
 
     # -- helpers ---------------------------------------------------------
@@ -175,6 +183,7 @@ class RegenMachine(RuleBasedStateMachine):
             sandbox.write_file(
                 os.path.join(self.src, 'build.bfg'), BUILD_BFG.format(
                     extra=", extra='*.md'" if self.use_extra else '',
+                    sdk=self.sdk,
                     pkg=("pkg_config('c08pkg', version='1.0', libs=[lib])"
                          if self.use_pkg else ''),
                     # (a custom predicate cannot be saved in the find cache,
@@ -207,6 +216,7 @@ class RegenMachine(RuleBasedStateMachine):
     @initialize()
     def setup(self):
         os.makedirs(self.src)
+        os.makedirs(self.sdk)
         for d in DIRS:
             os.makedirs(os.path.join(self.src, d), exist_ok=True)
         for d, names in NAMES.items():
@@ -372,6 +382,9 @@ class RegenMachine(RuleBasedStateMachine):
         self.clock.tick(self.tmp)
         log = os.path.join(self.tmp, 'bfg.log.{}'.format(self.builds))
         env = dict(self.env, VF_BFGLOG=log, VF_BFG_MAX='6')
+        # the build tool is started from an environment that no longer has
+        # the variable: regeneration works from the saved one
+        del env['C_INCLUDE_PATH']
         target = 'Makefile' if self.backend == 'make' else 'build.ninja'
         r = sandbox.run_backend(self.backend, self.bld, env, [target])
         if 'regeneration loop guard' in r.err + r.out:
